@@ -566,8 +566,13 @@ class Interp:
                         return AV(a.off.lo & c, a.off.hi & c, tw, ts)
                     return AV(0, c, tw, ts)
                 raise Unsupported("mask %x on a based value" % c)
-            if op in ("==", "!=", "<", "<=", ">", ">=") and c == 0:
-                return AV(1 if op in ("!=", ">", ">=") else 0, None, 32, True)   # base >= 1: a based value is never NULL
+            if op in ("==", "!=", "<", "<=", ">", ">=") and c is not None and 0 <= c < (1 << a.k) and a.off.lo >= 0 and a.dbase >= 0:
+                # base >= 1: the value is at least 2^k > c
+                return AV(1 if op in ("!=", ">", ">=") else 0, None, 32, True)
+            if op == "%" and c is not None and c > 0 and c & (c - 1) == 0 and c <= (1 << a.k) and a.off.lo >= 0:
+                if a.off.lo // c == a.off.hi // c:
+                    return AV(a.off.lo % c, a.off.hi % c, tw, ts)
+                return AV(0, c - 1, tw, ts)
         if isinstance(a, Based) and isinstance(b, Based) and a.k == b.k:
             if op == "-":
                 d = (a.dbase - b.dbase) << a.k
